@@ -257,6 +257,13 @@ where
     pub fn get_signature(&self) -> &Vec<D> {
         &self.signature
     }
+    /// verification hook: copy of the m per-position minima
+    #[cfg(probminhash_verif)]
+    pub fn verif_registers(&self) -> Vec<f64> {
+        (0..self.m)
+            .map(|k| self.maxvaluetracker.get_value(k))
+            .collect()
+    }
 } // end of ProbMinHash3aSha
 
 //=================================================================
